@@ -6,9 +6,10 @@ package sim
 
 import (
 	"io"
-	"runtime"
+	"os"
 	"sync"
 	"syscall"
+	"verif/sim/yieldpt"
 )
 
 type simPipe struct {
@@ -23,7 +24,7 @@ type simPipe struct {
 	ri         int
 	total      int // bytes ever written
 
-	// yields: runtime.Gosched() calls before each Read / Write, from the
+	// yields: yields (yieldpt.Yield) before each Read / Write, from the
 	// plan. At GOMAXPROCS=1 this deterministically changes which of
 	// git-sizer's own runnable goroutines (pipeline stages, feeders, main
 	// loop) gets the processor next.
@@ -31,8 +32,10 @@ type simPipe struct {
 	yi     int
 }
 
+var noYields = os.Getenv("VERIF_NO_YIELDS") != ""
+
 func (p *simPipe) yield() {
-	if len(p.yields) == 0 {
+	if len(p.yields) == 0 || noYields {
 		return
 	}
 	p.mu.Lock()
@@ -40,7 +43,7 @@ func (p *simPipe) yield() {
 	p.yi++
 	p.mu.Unlock()
 	for i := 0; i < n; i++ {
-		runtime.Gosched()
+		yieldpt.Yield()
 	}
 }
 
